@@ -51,6 +51,11 @@ Proof. exact calls_not_under_leaf. Qed.
 Theorem C16_waits_ok : forall st, In st sites -> wait_ok st = true.
 Proof. exact waits_ok. Qed.
 
+(** every lock held around a backend call is released by a deferred Unlock: a backend panic
+    (recovered in connState.handle) leaves nothing locked (also the lock clause of C15) *)
+Theorem C16_calls_panic_safe : forall st, In st sites -> panic_safe st = true.
+Proof. exact calls_panic_safe. Qed.
+
 (** C16_guarded: every access to cs.fids, cs.tags, childNodes/childRefs/childRefNames, pool.cache,
     Client.pending and Mapper.paths holds its designated mutex (for writing when it writes).
     The one exception is listed in Tables.access_exception: stop() ranges over cs.fids after
